@@ -112,7 +112,9 @@ Definition delims_all (w : str) : list str :=
   (if last_is (s "eEpP") w then [] else [s "+1"; s "-x"; s "--"; s "->"]).
 
 (* ---------------------------------------------------------------- the documented refuted shapes *)
-(* K1: hex constant whose leading run of b/B digits is followed by a decimal digit *)
+(* K1: hex constant whose leading run of b/B digits is followed by a decimal digit.  Was a refuted shape (the Prefix group
+   0[bBxX]* swallowed the b digits); repaired in the source (Prefix alternative 0[xX](?=[\da-fA-F])): no guard excludes it any
+   more, the definition is kept for the statement of the positive theorems (C11_accepted_hex_b_digits) *)
 Fixpoint k1_tail (r : str) (seen_b : bool) : bool :=
   match r with
   | c :: r' => if (N.eqb c 98 || N.eqb c 66) then k1_tail r' true else seen_b && is_dec c
@@ -187,7 +189,7 @@ Definition lex_one_diag (name w rest : str) : bool :=
   | _ => false
   end.
 
-Definition guard_int (w rest : str) : bool := negb (shape_k1 w) && negb (shape_hex_e_suffix w rest).
+Definition guard_int (w rest : str) : bool := negb (shape_hex_e_suffix w rest).
 Definition guard_float (w : str) : bool := negb (shape_hexfloat_empty_part w) && negb (shape_hexfloat_hex_suffix w).
 Definition guard_char (w : str) : bool := negb (shape_ucn w) && negb (shape_long_hex w).
 Definition guard_string (w : str) : bool := negb (shape_ucn w).
